@@ -6,7 +6,7 @@ import re
 from hypothesis import strategies as hs
 
 from dxv import sut, spec, foreign, gen, roundtrip
-from dxv.engine import HypCheck
+from dxv.engine import HypCheck, EnumCheck
 
 ASSUMPTIONS = [
     'a truncated file is a byte prefix of the intact file (crashed writer or '
@@ -533,6 +533,36 @@ def run_large(case, st):
 LARGE_SIZES = [65536, 65536 + 64, 70000, 131072, 131072 + 4096, 200000]
 
 
+def large_grid():
+    out = []
+
+    for size in LARGE_SIZES:
+        for line_len in (64, 128, 100, 4096, 37, 65):
+            for kind, indent, enc in (('diff', 0, 'utf-8'),
+                                      ('preamble', 0, 'utf-8'),
+                                      ('preamble', 4, 'latin-1'),
+                                      ('preamble', 4, 'utf-16'),
+                                      ('preamble', 0, 'utf-16'),
+                                      ('diff', 0, 'latin-1')):
+                out.append({'size': size, 'line_len': line_len, 'kind': kind,
+                            'indent': indent, 'encoding': enc})
+
+    return out
+
+
+def large_chunks(tier, seed):
+    grid = large_grid()
+
+    if tier == 'thorough':
+        return grid
+
+    return [grid[(seed * 7 + i * 19) % len(grid)] for i in range(12)]
+
+
+def run_large_chunk(case, st):
+    run_large(case, st)
+
+
 @hs.composite
 def large_cases(draw):
     return {
@@ -554,15 +584,20 @@ def cases(draw):
 
 def _checks():
     return [
-        HypCheck(
-            'large-sections', large_cases, run_large_entry,
-            budget={'quick': (8, 1), 'thorough': (16, 12)},
+        EnumCheck(
+            'large-sections', large_chunks, run_large_chunk,
+            run_case=run_large_entry, exhaustive=False,
             rule='files with one section of 64 KiB .. 200 KB (lines of 37 .. '
                  '4096 bytes, so that line terminators fall on and around '
                  'multiples of 4 KiB .. 128 KiB) cut at every offset around '
                  'those multiples (file- and content-relative), at 60 '
                  'evenly spaced points and around the section end; same '
-                 'prefix-of-intact-records oracle; every case non-trivial'),
+                 'prefix-of-intact-records oracle; a deterministic grid of '
+                 'size x line length x section kind x indent x codec, 12 '
+                 'grid points per quick run (rotating with the seed), the '
+                 'whole grid in the thorough tier; every case non-trivial',
+            bound={'quick': '12 of 216 grid points',
+                   'thorough': 'all 216 grid points'}),
         HypCheck(
             'truncate-and-perturb', cases, run_case,
             budget={'quick': (16, 10), 'thorough': (16, 320)},
